@@ -5,7 +5,7 @@
     of the rebase that follows.  Commits are modelled structurally (single-parent histories:
     a commit is its list of (change, description) down to the root; ancestry = suffix). *)
 From Coq Require Import Lia.
-From Verif Require Import Base.Prelude Model.Merge Model.C13 Proofs.C13.
+From Verif Require Import Base.Prelude Model.Merge Model.C13 Proofs.C13 Proofs.C13Maps.
 
 (** ** Working copies: the complete decision table of [merge_wc_commit]. *)
 Theorem C13_wc_rule : forall s b o : option commit,
@@ -88,6 +88,66 @@ Proof. exact merge_views_heads_kept. Qed.
 Theorem C13_bookmark_follows : forall (res : commit -> commit) c,
   update_bookmark res [Some c] = [Some (res c)].
 Proof. exact update_bookmark_normal. Qed.
+
+(** ** Whole views (flat two-way reconciliation), name by name.
+    For views whose maps are in BTreeMap order ([sortedk]) and store no absent target: the
+    reconciled view's value for EVERY workspace and EVERY bookmark is the per-name rule
+    (unchanged by the other side: ours; otherwise [merge_wc1] / [merge_ref_targets], i.e. the
+    theorems above apply to each name) followed by the reference update of the rebase. *)
+Theorem C13_view_wc : forall s b o v name,
+  merge_views s b o = Some v ->
+  sortedk (v_wc s) -> sortedk (v_wc b) -> sortedk (v_wc o) ->
+  lookup_n (v_wc v) name
+  = option_map (update_wc (rewrites_of s b o)
+                          (resolve (rewrites_of s b o) (S (length (rewrites_of s b o)))))
+      (if wc_eqb (lookup_n (v_wc b) name) (lookup_n (v_wc o) name) then lookup_n (v_wc s) name
+       else merge_wc1 (lookup_n (v_wc s) name) (lookup_n (v_wc b) name) (lookup_n (v_wc o) name)).
+Proof. exact merge_views_wc. Qed.
+
+Theorem C13_view_bookmarks : forall s b o v name,
+  merge_views s b o = Some v ->
+  sortedk (v_bookmarks s) -> sortedk (v_bookmarks b) -> sortedk (v_bookmarks o) ->
+  no_absent (v_bookmarks b) -> no_absent (v_bookmarks o) ->
+  tval name v
+  = update_bookmark (resolve (rewrites_of s b o) (S (length (rewrites_of s b o))))
+      (if target_eqb (tval name b) (tval name o) then tval name s
+       else merge_ref_targets (tval name s) (tval name b) (tval name o)).
+Proof. exact merge_views_bookmarks. Qed.
+
+(** Following the recorded rewrites keeps a commit's change id unless the commit itself was
+    abandoned (so refs "follow" to the same change). *)
+Theorem C13_resolve_keeps_change : forall s b o e,
+  lookup_rw (rewrites_of s b o) e <> Some Abandoned ->
+  change_of (resolve (rewrites_of s b o) (S (length (rewrites_of s b o))) e) = change_of e.
+Proof. exact resolve_change. Qed.
+
+(** The model's own reconciled view passes the checker.  Full statement (all six tests of the
+    flat two-way checker); proved so far: the workspace test, for every name. *)
+Definition pair_checker (s b o r : view) : bool :=
+  kept_changes s b o r && kept_changes o b s r
+  && removed_hidden s b r && removed_hidden o b r
+  && forallb (bookmark_ok s b o r)
+       (union_keys (map fst (v_bookmarks s)) (union_keys (map fst (v_bookmarks b))
+          (union_keys (map fst (v_bookmarks o)) (map fst (v_bookmarks r)))))
+  && forallb (wc_ok s b o r)
+       (union_keys (map fst (v_wc s)) (union_keys (map fst (v_wc b))
+          (union_keys (map fst (v_wc o)) (map fst (v_wc r))))).
+
+Definition C13_model_passes_checker_full : Prop := forall s b o v,
+  merge_views s b o = Some v ->
+  sortedk (v_wc s) -> sortedk (v_wc b) -> sortedk (v_wc o) ->
+  sortedk (v_bookmarks s) -> sortedk (v_bookmarks b) -> sortedk (v_bookmarks o) ->
+  no_absent (v_bookmarks b) -> no_absent (v_bookmarks o) ->
+  pair_checker s b o v = true.
+
+Theorem C13_model_passes_checker_partial : forall s b o v,
+  merge_views s b o = Some v ->
+  sortedk (v_wc s) -> sortedk (v_wc b) -> sortedk (v_wc o) ->
+  forall names, forallb (wc_ok s b o v) names = true.
+Proof.
+  intros s b o v H Hs Hb Ho names. apply forallb_forall. intros name _.
+  now apply model_passes_wc_check.
+Qed.
 
 (** ** Order of reconciliation. *)
 Theorem C13_order_wc : forall s b o : option commit,
@@ -173,6 +233,8 @@ Proof. vm_compute. repeat split. Qed.
 
 Print Assumptions C13_wc_rule.
 Print Assumptions C13_checker_dag_hidden.
+Print Assumptions C13_view_bookmarks.
+Print Assumptions C13_model_passes_checker_partial.
 Print Assumptions C13_bookmark_moves.
 Print Assumptions C13_conflict_not_drop.
 Print Assumptions C13_commits_kept.
